@@ -4,6 +4,7 @@
 //   how: 0 copy constructor | 1 assignment | 2 copyGrid(src) | 3 copyGrid(src, begin, end)
 //   mutate: 0 mutate the source afterwards | 1 mutate the copy afterwards
 #include "tgrid.hpp"
+#include <sstream>
 
 static void compare(const Obs &copy, const Obs &src, int b, int e, const char *stage){
   std::string s(stage);
@@ -74,6 +75,11 @@ int main(int argc, char **argv){
   else { assigned.copyGrid(src, b, e); copy = &assigned; }
   Obs os = observe(src, probe), oc = observe(*copy, probe);
   compare(oc, os, b, e, "after copy");
+  { // completeness as seen by write(): the image of the copy restores a grid with the same observables (a copy that answers queries
+    // correctly but serialises incompletely is not a complete copy)
+    std::stringstream ss(std::ios::in | std::ios::out | std::ios::binary); copy->write(ss, true); TasmanianSparseGrid rb; rb.read(ss, true);
+    compare(observe(rb, probe), os, b, e, "grid restored from the binary image of the copy");
+  }
   // pending construction data behaves the same: the same candidates are offered
   if (history == 2){
     auto cands = [&](TasmanianSparseGrid &gr){ return (gr.isLocalPolynomial() || gr.isWavelet()) ? gr.getCandidateConstructionPoints(0.0, refine_classic, -1, g.ll) : gr.getCandidateConstructionPoints(type_level, 0, g.ll); };
